@@ -30,6 +30,9 @@ struct Env {
     via_provider: bool,
     /// an earlier sibling sub-context (same owner, through the provider) holding this locale: it is not the parent
     sibling: Option<usize>,
+    /// main context through the generated `<I18nContextProvider>`: its set_dir_attr_on_html / set_lang_attr_on_html
+    /// props (they have nothing to do with the locale)
+    html_attrs: Option<(bool, bool)>,
 }
 
 const DEFAULT_COOKIE: &str = "i18n_pref_locale";
@@ -150,6 +153,22 @@ fn opts(e: &Env) -> I18nContextOptions<'static, Locale> {
 fn observe(e: &Env) -> (usize, Option<usize>) {
     with_owner(|| {
         let idx = |l: Locale| NAMES.iter().position(|n| *n == l.as_str()).unwrap();
+        if let (false, Some((dir, lang))) = (e.sub, e.html_attrs) {
+            let header = e.cookie_header.clone();
+            let accept = e.accept.map(String::from);
+            let (v, ctx) = provider_main(
+                e.enable_cookie,
+                dir,
+                lang,
+                e.cookie_name,
+                CookieOptions::<Locale>::default().ssr_cookies_header_getter(move || header.clone()),
+                UseLocalesOptions::default().ssr_lang_header_getter(move || accept.clone()),
+            );
+            poll();
+            let got = idx(ctx.get_locale_untracked());
+            drop(v);
+            return (got, None);
+        }
         if !e.sub {
             let ctx: I18nContext<Locale> = init_i18n_context_with_options(opts(e));
             poll();
@@ -223,20 +242,24 @@ pub fn run(tier: Tier) -> i32 {
             // main context
             for enable in [true, false] {
                 for cn in [None, Some("custom")] {
-                    envs.push(Env { cookie_header: ch.clone(), enable_cookie: enable, cookie_name: cn, accept: *a, parent: None, initial: None, sub: false, sub_cookie_name: None, via_provider: false, sibling: None });
+                    envs.push(Env { cookie_header: ch.clone(), enable_cookie: enable, cookie_name: cn, accept: *a, parent: None, initial: None, sub: false, sub_cookie_name: None, via_provider: false, sibling: None, html_attrs: None });
+                    // the same through the generated provider component, whose other boolean props must not matter
+                    for attrs in [(true, true), (false, true), (true, false), (false, false)] {
+                        envs.push(Env { cookie_header: ch.clone(), enable_cookie: enable, cookie_name: cn, accept: *a, parent: None, initial: None, sub: false, sub_cookie_name: None, via_provider: true, sibling: None, html_attrs: Some(attrs) });
+                    }
                 }
             }
             // sub-context
             for parent in [None, Some(0), Some(1), Some(2)] {
                 for initial in [None, Some(0), Some(1), Some(2)] {
                     for scn in [None, Some(DEFAULT_COOKIE), Some("custom")] {
-                        envs.push(Env { cookie_header: ch.clone(), enable_cookie: true, cookie_name: None, accept: *a, parent, initial, sub: true, sub_cookie_name: scn, via_provider: false, sibling: None });
+                        envs.push(Env { cookie_header: ch.clone(), enable_cookie: true, cookie_name: None, accept: *a, parent, initial, sub: true, sub_cookie_name: scn, via_provider: false, sibling: None, html_attrs: None });
                         // the same through the provider component, alone and after a sibling provider in another locale
                         for sibling in [None, Some(1), Some(2)] {
                             if sibling.is_some() && sibling == parent {
                                 continue;
                             }
-                            envs.push(Env { cookie_header: ch.clone(), enable_cookie: true, cookie_name: None, accept: *a, parent, initial, sub: true, sub_cookie_name: scn, via_provider: true, sibling });
+                            envs.push(Env { cookie_header: ch.clone(), enable_cookie: true, cookie_name: None, accept: *a, parent, initial, sub: true, sub_cookie_name: scn, via_provider: true, sibling, html_attrs: None });
                         }
                     }
                 }
@@ -273,7 +296,7 @@ pub fn run(tier: Tier) -> i32 {
     rep.sample(json!({"env": format!("{:?}", envs[envs.len() / 3])}));
     rep.sample(json!({"env": format!("{:?}", envs[envs.len() - 5])}));
     let mut cov = serde_json::Map::new();
-    cov.insert("rule".into(), json!(format!("{} cookie headers (absent, empty, each of 9 values under the default and a custom name alone and between other cookies, both names, unrelated) x {} Accept-Language values x {{main context: enable_cookie x cookie name}} + {{sub-context: parent none/each locale x initial none/each x cookie name none/default/custom x created directly / through the generated <I18nSubContextProvider> component, alone or after a sibling provider holding another locale (a sibling is not the parent)}}; each environment builds real contexts (init_i18n_context_with_options, init_i18n_subcontext_with_options, resolve_locale_with_options) under ssr with injected header getters and effects run to quiescence; the harness is built twice, with and without the library's `cookie` feature (without it every cookie option must do nothing); oracle: cookie (if enabled and holding a configured name) > Accept-Language best match > default; sub-context: cookie > initial > parent > same resolution; distinct_nontrivial = distinct (deciding rule, result) classes", cookie_headers.len(), accepts.len())));
+    cov.insert("rule".into(), json!(format!("{} cookie headers (absent, empty, each of 9 values under the default and a custom name alone and between other cookies, both names, unrelated) x {} Accept-Language values x {{main context: enable_cookie x cookie name, created directly or through the generated <I18nContextProvider> component under every value of its set_dir_attr_on_html / set_lang_attr_on_html props}} + {{sub-context: parent none/each locale x initial none/each x cookie name none/default/custom x created directly / through the generated <I18nSubContextProvider> component, alone or after a sibling provider holding another locale (a sibling is not the parent)}}; each environment builds real contexts (init_i18n_context_with_options, init_i18n_subcontext_with_options, resolve_locale_with_options) under ssr with injected header getters and effects run to quiescence; the harness is built twice, with and without the library's `cookie` feature (without it every cookie option must do nothing); oracle: cookie (if enabled and holding a configured name) > Accept-Language best match > default; sub-context: cookie > initial > parent > same resolution; distinct_nontrivial = distinct (deciding rule, result) classes", cookie_headers.len(), accepts.len())));
     cov.insert("exhaustive".into(), json!(true));
     cov.insert("outcome_classes".into(), json!(*classes.lock().unwrap()));
     rep.finish(cov, &["client branch (navigator.languages, <html lang>) needs a browser: not executed", "Accept-Language is split by leptos-use on ',' without trimming: entries are fed without spaces", "a cookie value with surrounding whitespace may be honoured or ignored (from_str trims)"])
